@@ -77,7 +77,7 @@ def C08_fires_iff_reachable : Prop :=
 
 /-! #### negation witness (F10): `a.child = a; a.observe(h, 'child:child:value'); a.child = b; b.value += 1` -/
 
-def fld (n : Name) (v : Val) : Field := ⟨n, false, .val (if n == nValue then .int 0 else .none), v⟩
+def fld (n : Name) (v : Val) : Field := ⟨n, false, .val (if n == nValue then .int 0 else .none), v, .equality⟩
 
 def f10Heap : Heap :=
   [(0, .inst [fld nValue (.int 0), fld nChild (.ref 0), fld nTraitAdded .unset]),
@@ -203,7 +203,7 @@ observable) is an invariant of every operation, see `C08_unique_users`. -/
 theorem C08_fires_iff_reachable_partial (E : Env) (st : St) (regs : List Reg) (o : Id) (n : Name) (v : Val)
     (fresh : Id) (fs : List Field) (f : Field) (hinv : HooksEqReach st.h st.H regs)
     (fr : SetFrag E st regs o n v fs f) (hset : f.val ≠ .unset) (hu : UniqueUsers st.H) (hne : f.val ≠ v)
-    (hprev : preventTrait (storeField st.h o n v) n f.val v = false) (k : HKey) :
+    (hprev : preventTrait E (storeField st.h o n v) o n f.val v = false) (k : HKey) :
     ((mutate E st (.setField o n v fresh)).delivered.filter (fun d => d.key == k)).length =
       if 0 < specCnt st.h regs (.trait o n) (.user k) then 1 else 0 :=
   setField_calls E st regs o n v fresh fs f hinv fr hset hu hne hprev k
@@ -251,10 +251,12 @@ theorem C08_event_identifies (E : Env) (st : St) (m : Mutation) :
   fun d hd => (mutate_delivered E st m d hd).1
 
 /-- For a trait assignment the event carries the assigned value as `new`, a
-different value as `old`, and comes from a user notifier hooked on that trait. -/
+different value as `old` (unless the trait is declared `comparison_mode=none`, which
+reports every assignment), and comes from a user notifier hooked on that trait. -/
 theorem C08_event_identifies_assignment (E : Env) (st : St) (o : Id) (n : Name) (v : Val) (fresh : Id) :
     ∀ d ∈ (mutate E st (.setField o n v fresh)).delivered,
-      ∃ k old rc, d = .trait k o n old v ∧ old ≠ v ∧ Notifier.user k rc ∈ st.H.get (.trait o n) :=
+      ∃ k old rc, d = .trait k o n old v ∧ (old = v → fieldCmp st.h o n = .none) ∧
+        Notifier.user k rc ∈ st.H.get (.trait o n) :=
   setField_delivered E st o n v fresh
 
 /-! ### non-vacuity -/
